@@ -16,7 +16,8 @@ RULES = {
     "C06": [(r"attrpath/.*", "F02"), (r"source_code:[^/]*/\^/.*", "F01"), (r"let_expression/in/.*", "GEN:F15"),
             (r"(source_code|parenthesized_expression):let_expression/.*", "F26"), (r"select_expression/.*", "F14"),
             (r"(source_code|parenthesized_expression):assert_expression/.*", "F17"), (r".*", "F21")],
-    "C18": [(r"attrpath/.*", "F22"), (r"source_code:[^/]*/\^/.*", "F01"), (r".*", "F22")],
+    "C18": [(r"source_code:[^/]*/\^/.*", "F01"), (r"let_expression/in/.*", "GEN:F15"), (r"(inherit|inherit_from|inherited_attrs)/.*", "F18"),
+            (r"(source_code|parenthesized_expression):let_expression/.*", "F26"), (r".*", "F22")],
 }
 
 
